@@ -195,6 +195,24 @@ fn gen_c01(tier: &str, rng: &mut Rng) -> Vec<Case> {
         let id = cases.len();
         cases.push(mk_case(id, 0, cfg, width, html.into_bytes(), Some(0), g("sparse"), "sparse_tables"));
     }
+    // ordered lists under a decorator whose numbering is widest in the middle of the list (roman
+    // numerals): implementation only, the model's decorators number in decimal
+    let nr = if thorough { 4000 } else { 400 };
+    for _ in 0..nr {
+        let start = *rng.pick(&[1i64, 5, 95, -2, 0, 3998, 37]);
+        let items: String = (0..rng.range(1, 20)).map(|k| format!("<li>item {}</li>", k)).collect();
+        let html = format!("<ol start=\"{}\">{}</ol>", start, items);
+        let mut custom: Vec<String> = vec!["[", "]", "*", "*", "**", "**", "~", "~", "`", "`", "[", "]", "#", "> ", "* "].into_iter().map(String::from).collect();
+        custom.push("ROMAN".to_string());
+        let mut cfg = Cfg { deco: 4, custom, ..Default::default() };
+        cfg.overflow = rng.chance(1, 2);
+        if rng.chance(1, 4) {
+            cfg.pad = true;
+        }
+        let width = *rng.pick(&[0usize, 1, 2, 5, 10, 40, 200, 100000]);
+        let id = cases.len();
+        cases.push(mk_case(id, 0, cfg, width, html.into_bytes(), None, g("roman"), "roman_numbering"));
+    }
     // attribute values the renderer looks into, filled with short strings that mix ASCII, hex
     // digits and multi-byte characters at every byte offset
     let na = if thorough { 40000 } else { 2500 };
@@ -602,6 +620,24 @@ fn gen_c11(tier: &str, rng: &mut Rng) -> Vec<Case> {
             css_root = rng.chance(1, 3);
             html = if rng.chance(1, 2) { e.to_string() } else { format!("{}{}", html, e) };
         }
+        // prefixed blocks whose content has minimum width 0 but is not nothing (a lone combining
+        // mark, or any text under min_wrap_width(0)), at widths around the prefix width, with a
+        // maximum wrap width: the block's own width can be 0
+        let mut zero_min = false;
+        if rng.chance(1, 10) {
+            let e = *rng.pick(&[
+                "<blockquote>\u{301}</blockquote>",
+                "<ul><li>\u{301}</li></ul>",
+                "<ol><li>\u{301}\u{301}</li></ol>",
+                "<p>a</p><blockquote><blockquote>\u{301}</blockquote></blockquote>",
+                "<h3>\u{301}</h3>",
+                "<blockquote>x</blockquote>",
+                "<dl><dd>\u{301}</dd></dl>",
+                "<ul><li>ab cd</li></ul>",
+            ]);
+            html = e.to_string();
+            zero_min = true;
+        }
         // link targets holding characters wider than the narrowest widths (the footnote list is
         // hard-wrapped too)
         let wide_href = rng.chance(1, 8);
@@ -622,6 +658,14 @@ fn gen_c11(tier: &str, rng: &mut Rng) -> Vec<Case> {
         if base.max_wrap == Some(0) {
             base.max_wrap = Some(1);
         }
+        if zero_min {
+            if rng.chance(2, 3) {
+                base.max_wrap = Some(*rng.pick(&[1usize, 3, 10]));
+            }
+            if rng.chance(1, 2) {
+                base.min_wrap = Some(0);
+            }
+        }
         if css_root {
             // the whole document (or its body) hidden by CSS: still Ok / TooNarrow, never another error
             base.user_css.push(rng.pick(&["html { display: none; }", "body { display: none; }", "* { display: none; }", "html, body { height: 0; overflow: hidden }"]).to_string());
@@ -631,7 +675,7 @@ fn gen_c11(tier: &str, rng: &mut Rng) -> Vec<Case> {
         }
         let mut ov = base.clone();
         ov.overflow = true;
-        let w = if wide_href { rng.range(1, 3) } else if rng.chance(1, 2) { rng.range(1, 12) } else { rng.range(1, 60) };
+        let w = if zero_min { rng.range(1, 5) } else if wide_href { rng.range(1, 3) } else if rng.chance(1, 2) { rng.range(1, 12) } else { rng.range(1, 60) };
         for (role, cfg, width) in [("zero", base.clone(), 0usize), ("base", base.clone(), w), ("ovf", ov.clone(), w), ("zero_ovf", ov.clone(), 0usize)] {
             let id = cases.len();
             let mut c = mk_case(id, 0, cfg, width, bytes.clone(), Some(0), g(role), if tables { "tables" } else { "table_free" });
